@@ -274,13 +274,9 @@ Proof.
     + cbn [g_display_result py_str bind]. rewrite ?precisionify_float_is_source. cbn [bind].
       rewrite default_unit_format_is_source. cbn [bind display num_text].
       unfold ending. rewrite ?app_nil_r_s, !app_assoc_s. reflexivity.
-  - cbn [inj g_display_result bind]. unfold for_enum.
-    rewrite (for_enum_is_concat _ (Z.of_nat (List.length l)) l 0).
-    + cbn [bind display]. unfold ending. rewrite !app_assoc_s. reflexivity.
-    + now apply wf_arr.
-    + lia.
-    + intros j x Hx. rewrite bind_Ok_r, (stringify_is_source x false Hx). cbn [bind].
-      rewrite array_len_is_source, map_length. cbn [bind]. destruct (j <? Z.of_nat (List.length l) - 1)%Z; reflexivity.
+  - change (inj (VArr l)) with (PArray (map inj l)). cbn [g_display_result].
+    change (PArray (map inj l)) with (inj (VArr l)). rewrite (stringify_is_source (VArr l) false Hw).
+    reflexivity.
   - change (inj (VIvl a b)) with (PInterval (inj a) (inj b)). cbn [g_display_result].
     change (PInterval (inj a) (inj b)) with (inj (VIvl a b)). rewrite (stringify_is_source (VIvl a b) false Hw).
     reflexivity.
